@@ -1196,6 +1196,21 @@ fn gen_path(rng: &mut Rng) -> kurbo::BezPath {
         }
     };
     for _ in 0..nc {
+        if rng.chance(1, 3) {
+            // closed all-quadratic contour whose move-to point is exactly midway between the last and
+            // the first control point: from_bezpath elides it, the contour then STARTS off-curve
+            let c0 = (2.0 * rng.range(-3000, 3000) as f64, 2.0 * rng.range(-3000, 3000) as f64);
+            let cl = (2.0 * rng.range(-3000, 3000) as f64, 2.0 * rng.range(-3000, 3000) as f64);
+            let s = ((c0.0 + cl.0) / 2.0, (c0.1 + cl.1) / 2.0);
+            p.move_to(s);
+            p.quad_to(c0, (coord(rng), coord(rng)));
+            if rng.chance(1, 2) {
+                p.quad_to((coord(rng), coord(rng)), (coord(rng), coord(rng)));
+            }
+            p.quad_to(cl, s);
+            p.close_path();
+            continue;
+        }
         let s = (coord(rng), coord(rng));
         p.move_to(s);
         let n = rng.range(1, 6);
@@ -1261,6 +1276,217 @@ fn minimal_font(glyf: &[u8], loca: &[u8], long: bool, lsbs: &[i16]) -> Vec<u8> {
     fb.add_raw(read_fonts::types::Tag::new(b"glyf"), glyf.to_vec());
     fb.add_raw(read_fonts::types::Tag::new(b"loca"), loca.to_vec());
     fb.build()
+}
+// ---------- drawing glyphs given as point lists, both path styles, vs an independent reference ----------
+/// pen stream with doubled coordinates (all midpoints of integer points are exact halves):
+/// move 0 x y | line 1 x y | quad 2 cx cy x y | close 3; a cubic or inexact value is recorded as 9
+#[derive(Default)]
+struct StreamPen(Vec<i128>);
+impl StreamPen {
+    fn c(&mut self, v: f32) {
+        let d = v as f64 * 2.0;
+        if d.fract() != 0.0 {
+            self.0.push(9);
+        }
+        self.0.push(d as i128);
+    }
+}
+impl skrifa::outline::OutlinePen for StreamPen {
+    fn move_to(&mut self, x: f32, y: f32) {
+        self.0.push(0);
+        self.c(x);
+        self.c(y);
+    }
+    fn line_to(&mut self, x: f32, y: f32) {
+        self.0.push(1);
+        self.c(x);
+        self.c(y);
+    }
+    fn quad_to(&mut self, cx0: f32, cy0: f32, x: f32, y: f32) {
+        self.0.push(2);
+        self.c(cx0);
+        self.c(cy0);
+        self.c(x);
+        self.c(y);
+    }
+    fn curve_to(&mut self, _: f32, _: f32, _: f32, _: f32, _: f32, _: f32) {
+        self.0.push(9);
+    }
+    fn close(&mut self) {
+        self.0.push(3);
+    }
+}
+/// The TrueType contour -> path rule, written from the specification (doubled coordinates):
+/// choose the start point (first point if on-curve; otherwise per style: FreeType looks backward at
+/// the last point, HarfBuzz forward at the second), then walk the remaining points cyclically,
+/// inserting the implied on-curve midpoint between two consecutive off-curve points, and close.
+fn ref_contour_path(c: &[Pt], harfbuzz: bool, out: &mut Vec<i128>) {
+    let n = c.len();
+    if n == 0 {
+        return;
+    }
+    let d = |p: &Pt| (2 * p.0 as i128, 2 * p.1 as i128);
+    let mid = |a: &Pt, b: &Pt| (a.0 as i128 + b.0 as i128, a.1 as i128 + b.1 as i128);
+    // (start point, cyclic order of the points still to visit)
+    let (start, order): ((i128, i128), Vec<usize>) = if c[0].2 {
+        (d(&c[0]), (1..n).collect())
+    } else if !harfbuzz {
+        if c[n - 1].2 {
+            (d(&c[n - 1]), (0..n - 1).collect())
+        } else {
+            (mid(&c[n - 1], &c[0]), (0..n).collect())
+        }
+    } else {
+        if n == 1 {
+            return; // hb-draw: a lone off-curve point draws nothing
+        }
+        if c[1].2 {
+            (d(&c[1]), (2..n).chain([0, 1]).collect())
+        } else {
+            (mid(&c[0], &c[1]), (1..n).chain([0]).collect())
+        }
+    };
+    out.extend([0, start.0, start.1]);
+    let mut ctrl: Option<usize> = None;
+    for i in order {
+        let p = &c[i];
+        match (ctrl, p.2) {
+            (None, true) => out.extend([1, d(p).0, d(p).1]),
+            (None, false) => ctrl = Some(i),
+            (Some(q), true) => {
+                out.extend([2, d(&c[q]).0, d(&c[q]).1, d(p).0, d(p).1]);
+                ctrl = None;
+            }
+            (Some(q), false) => {
+                let m = mid(&c[q], p);
+                out.extend([2, d(&c[q]).0, d(&c[q]).1, m.0, m.1]);
+                ctrl = Some(i);
+            }
+        }
+    }
+    if let Some(q) = ctrl {
+        out.extend([2, d(&c[q]).0, d(&c[q]).1, start.0, start.1]);
+    }
+    out.push(3);
+}
+fn gen_point_contours(rng: &mut Rng) -> Vec<Vec<Pt>> {
+    let nc = rng.range(1, 4) as usize;
+    let mut out = vec![];
+    for _ in 0..nc {
+        let n = match rng.below(6) {
+            0 => 1,
+            1 => 2,
+            _ => rng.range(3, 7) as usize,
+        };
+        // on/off pattern: first off-curve half of the time; all-off; last on or off
+        let shape = rng.below(6);
+        let mut c: Vec<Pt> = vec![];
+        for i in 0..n {
+            let on = match shape {
+                0 => false,                       // all off-curve
+                1 => i != 0,                      // only the first off
+                2 => i == n - 1,                  // only the last on (first off if n > 1)
+                3 => i == 0,                      // only the first on
+                _ => rng.chance(1, 2),
+            };
+            let coord = |rng: &mut Rng| -> i16 {
+                match rng.below(5) {
+                    0 => rng.range(-3, 3) as i16,
+                    1 => *rng.pick(&[-32768i16, 32767, -32767, 255, 256]),
+                    _ => rng.range(-2000, 2000) as i16,
+                }
+            };
+            c.push((coord(rng), coord(rng), on));
+        }
+        out.push(c);
+    }
+    // keep successive deltas representable (the writer refuses otherwise)
+    let (mut lx, mut ly) = (0i32, 0i32);
+    for c in out.iter_mut() {
+        for p in c.iter_mut() {
+            if (p.0 as i32 - lx).abs() > 32767 {
+                p.0 = (lx / 2) as i16;
+            }
+            if (p.1 as i32 - ly).abs() > 32767 {
+                p.1 = (ly / 2) as i16;
+            }
+            lx = p.0 as i32;
+            ly = p.1 as i32;
+        }
+    }
+    out
+}
+/// kind 6: contours (point lists) -> SimpleGlyph -> GlyfLocaBuilder -> FontBuilder font -> skrifa
+/// unscaled draw in the given path style; the pen stream goes to the model and to the reference.
+fn do_draw_points(cx: &mut Ctx, contours: &[Vec<Pt>], model: bool) {
+    use skrifa::instance::{LocationRef, Size};
+    use skrifa::outline::{DrawSettings, pen::PathStyle};
+    use skrifa::MetadataProvider;
+    let xs: Vec<i16> = contours.iter().flatten().map(|p| p.0).collect();
+    let ys: Vec<i16> = contours.iter().flatten().map(|p| p.1).collect();
+    let bb = [*xs.iter().min().unwrap(), *ys.iter().min().unwrap(), *xs.iter().max().unwrap(), *ys.iter().max().unwrap()];
+    let g = SG { bbox: bb, contours: contours.to_vec(), instr: vec![] };
+    let g2 = g.clone();
+    let font = catch(move || -> Result<Vec<u8>, String> {
+        let mut b = GlyfLocaBuilder::new();
+        b.add_glyph(&Glyph::Empty).map_err(|e| format!("{e:?}"))?;
+        b.add_glyph(&to_simple(&g2)).map_err(|e| format!("{e:?}"))?;
+        let (glyf, loca, fmt) = b.build();
+        Ok(minimal_font(&write_fonts::dump_table(&glyf).unwrap(), &write_fonts::dump_table(&loca).unwrap(), fmt == LocaFormat::Long, &[0, g2.bbox[0]]))
+    });
+    let key = format!("drawpts-{:016x}", fnv(format!("{:?}", contours).as_bytes()));
+    let font = match font {
+        Ok(Ok(f)) => f,
+        other => {
+            cx.fail(key, "building a font from a point-list glyph failed", json!({"res": format!("{:?}", other.map(|r| r.map(|_| ()))), "contours": format!("{:?}", contours)}));
+            return;
+        }
+    };
+    for harfbuzz in [false, true] {
+        cx.st.evaluations += 1;
+        let fb = font.clone();
+        let drawn = catch(move || -> Result<Vec<i128>, String> {
+            let font = FontRef::new(&fb).map_err(|e| format!("{e:?}"))?;
+            let g = font.outline_glyphs().get(GlyphId::new(1)).ok_or("no outline glyph")?;
+            let mut pen = StreamPen::default();
+            let style = if harfbuzz { PathStyle::HarfBuzz } else { PathStyle::FreeType };
+            g.draw(DrawSettings::unhinted(Size::unscaled(), LocationRef::default()).with_path_style(style), &mut pen).map_err(|e| format!("{e:?}"))?;
+            Ok(pen.0)
+        });
+        let mut want = vec![];
+        for c in contours {
+            ref_contour_path(c, harfbuzz, &mut want);
+        }
+        let got: Vec<i128> = match &drawn {
+            Ok(Ok(v)) => v.clone(),
+            _ => vec![-1],
+        };
+        cx.st.count(if harfbuzz { "drawpts.harfbuzz" } else { "drawpts.freetype" });
+        for (ci, c) in contours.iter().enumerate() {
+            if !c[0].2 {
+                cx.st.count(if ci + 1 < contours.len() { "br.draw_nonlast_contour_starts_off" } else { "br.draw_last_contour_starts_off" });
+                cx.st.count(if c[c.len() - 1].2 { "br.draw_start_off_last_on" } else { "br.draw_start_off_last_off" });
+            }
+            if c.iter().all(|p| !p.2) {
+                cx.st.count("br.draw_all_off_contour");
+            }
+        }
+        if got != want {
+            cx.fail(format!("{}-{}", key, if harfbuzz { "hb" } else { "ft" }), "unscaled drawing differs from the TrueType contour->path rule", json!({"contours": format!("{:?}", contours), "style": if harfbuzz {"HarfBuzz"} else {"FreeType"}, "drawn": format!("{:?}", drawn), "want": format!("{:?}", want)}));
+        } else {
+            cx.st.nontrivial(&format!("{:?}{}", contours, harfbuzz));
+        }
+        if model {
+            let ins = vec![
+                contours.iter().map(|c| c.len() as i128).collect::<Vec<_>>(),
+                xs.iter().map(|v| *v as i128).collect(),
+                ys.iter().map(|v| *v as i128).collect(),
+                contours.iter().flatten().map(|p| p.2 as i128).collect(),
+                vec![harfbuzz as i128],
+            ];
+            cx.push(6, &ins, &[got]);
+        }
+    }
 }
 fn do_draw(cx: &mut Ctx, rng: &mut Rng, n_fonts: usize) {
     use skrifa::instance::{LocationRef, Size};
@@ -1577,6 +1803,18 @@ fn main() {
     }
     // --- drawing (implementation only) ---
     do_draw(&mut cx, &mut rng, 250 * scale);
+    // --- drawing point-list glyphs in both path styles (model kind 6 + reference oracle) ---
+    // fixed: two all-off-curve squares; first contour starts off-curve with last on / last off
+    let sq = |o: i16, on_last: bool| -> Vec<Pt> { vec![(o, 0, false), (o + 10, 0, false), (o + 10, 10, false), (o, 10, on_last)] };
+    for (a, b) in [(false, false), (true, false), (false, true), (true, true)] {
+        do_draw_points(&mut cx, &[sq(0, a), sq(100, b)], true);
+        do_draw_points(&mut cx, &[sq(0, a), vec![(50, 50, true), (60, 61, false), (71, 50, true)], sq(-101, b)], true);
+    }
+    do_draw_points(&mut cx, &[vec![(5, 5, false)], vec![(1, 1, false), (3, 3, true)], vec![(7, 8, true)]], true);
+    for _ in 0..(500 * scale) {
+        let cs = gen_point_contours(&mut rng);
+        do_draw_points(&mut cx, &cs, true);
+    }
 
     let shards = cx.cw.finish();
     cx.st.v.insert("shards".into(), shards.into());
